@@ -46,6 +46,7 @@ pub struct Cfg {
     pub iters: u64,
     pub threshold: f64,
     pub threads: usize,
+    pub sampling_seed: u64,
 }
 
 pub fn pick_params(s: &mut Stream) -> (Option<Params>, &'static str) {
@@ -86,11 +87,18 @@ pub fn decode(bytes: &[u8], thorough: bool) -> (Built, Cfg) {
     let built = gen_built(&mut gs, &cfg);
     let method = [Method::Full, Method::Sampled, Method::External][s.below(3)];
     let (params, params_name) = pick_params(&mut s);
-    let iters = match s.weighted(&[30, 1]) {
+    let iters = match s.weighted(&[30, 1, 3]) {
         0 => s.below(41) as u64,
-        _ => 300,
+        1 => 300,
+        // the documented "unlimited" budgets; they end only through the threshold
+        _ => [u64::MAX, u64::MAX - 1, 1 << 63, 1 << 40][s.below(4)],
     };
-    let threshold = [0.0, f64::NAN, f64::INFINITY, f64::NEG_INFINITY, -1.0, 1e-300, 0.1, 1e9][s.below(8)];
+    let mut threshold = [0.0, f64::NAN, f64::INFINITY, f64::NEG_INFINITY, -1.0, 1e-300, 0.1, 1e9][s.below(8)];
+    if iters > 300 {
+        // every bound is finite after one iteration, so +inf stops there
+        threshold = f64::INFINITY;
+    }
+    let sampling_seed = s.u32() as u64;
     let threads = match s.weighted(&[6, 8, 1, 1, 1]) {
         0 => 1,
         1 => 2 + s.below(15),
@@ -113,6 +121,7 @@ pub fn decode(bytes: &[u8], thorough: bool) -> (Built, Cfg) {
             iters,
             threshold,
             threads,
+            sampling_seed,
         },
     )
 }
@@ -125,12 +134,14 @@ pub fn check(bytes: &[u8], ctx: &Ctx) -> Verdict {
     };
     let info = &built.info;
     let params = lib_preset(cfg.params_name, &cfg.params);
+    // production samplers on per-site seeded generators: the run is a function of the case
+    let rec = glue::Recorder::new(glue::Mode::Seeded(cfg.sampling_seed));
     let res = catch_unwind(AssertUnwindSafe(|| {
-        game.solve(glue::lib_method(cfg.method), cfg.iters, cfg.threshold, cfg.threads, params)
+        glue::solve_hooked(&game, &rec, cfg.method, cfg.iters, cfg.threshold, cfg.threads, params)
     }));
     let what = format!(
-        "{:?} params {} {:?} iters {} threshold {} threads {}",
-        cfg.method, cfg.params_name, cfg.params, cfg.iters, cfg.threshold, cfg.threads
+        "{:?} params {} {:?} iters {} threshold {} threads {} sampling seed {}",
+        cfg.method, cfg.params_name, cfg.params, cfg.iters, cfg.threshold, cfg.threads, cfg.sampling_seed
     );
     let mut labels = vec![cfg.params_name];
     let res = match res {
@@ -204,6 +215,9 @@ pub fn check(bytes: &[u8], ctx: &Ctx) -> Verdict {
     if inf_exp {
         labels.push("infinite-exponent");
     }
+    if cfg.iters > 300 {
+        labels.push("unlimited-budget");
+    }
     if cfg.params.map(|p| p.w != 0.0 && p.w.is_finite()).unwrap_or(false) {
         labels.push("softmax-weight");
     }
@@ -233,7 +247,7 @@ pub fn prop() -> Prop {
         id: "C05",
         check,
         describe,
-        rule: "generated games (all families incl. no infosets) x method x parameters (None, the five presets, RegretParams::new with exponents from {+-inf, 0, +-1e-3, +-1, +-1.5, +-1e3, random}, gamma from {0,1e-3,1,2,1e3,random}) x budget 0..40 (rarely 300) x threshold {0,NaN,+-inf,-1,1e-300,0.1,1e9} x threads {1, 2..16, 0, 33, 64, usize::MAX/3+1, usize::MAX/2, usize::MAX}; oracle: no panic, Err only with threads != 1 (ThreadOverflow above usize::MAX/3), valid profile by the C13 predicate, importable, bounds non-negative, not NaN, infinite iff the budget is 0. Non-trivial = T >= 1, N >= 1 and (infinite exponent, or negative/infinite no_positive weight, or more than one thread); distinct by (tree, configuration).",
+        rule: "generated games (all families incl. no infosets) x method x parameters (None, the five presets, RegretParams::new with exponents from {+-inf, 0, +-1e-3, +-1, +-1.5, +-1e3, random}, gamma from {0,1e-3,1,2,1e3,random}) x budget 0..40 (rarely 300; one in ten u64::MAX, u64::MAX-1, 2^63 or 2^40 with threshold +inf, which must stop after the first iteration) x threshold {0,NaN,+-inf,-1,1e-300,0.1,1e9} x threads {1, 2..16, 0, 33, 64, usize::MAX/3+1, usize::MAX/2, usize::MAX}; oracle: no panic, Err only with threads != 1 (ThreadOverflow above usize::MAX/3), valid profile by the C13 predicate, importable, bounds non-negative, not NaN, infinite iff the budget is 0. Non-trivial = T >= 1, N >= 1 and (infinite exponent, or negative/infinite no_positive weight, or more than one thread); distinct by (tree, configuration).",
         max_len: 700,
         cases_quick: 24_000,
         cases_thorough: 800_000,
